@@ -77,8 +77,8 @@ def run_embedded_shard(spec: dict, rec: Rec, pid: str, classes: tuple[str, ...],
 
 class ComponentCheck:
     def __init__(self, pid: str, pick, tiers: dict | None = None, drain: int = 40, per_shard: int | None = None, rivals: bool = True,
-                 embedded: tuple[tuple[str, ...], tuple[str, ...]] | None = None):
-        self.pid, self.pick, self.rivals, self.embedded = pid, pick, rivals, embedded
+                 embedded: tuple[tuple[str, ...], tuple[str, ...]] | None = None, suite: tuple[tuple[str, ...], tuple[str, ...]] | None = None):
+        self.pid, self.pick, self.rivals, self.embedded, self.suite = pid, pick, rivals, embedded, suite
         self.tiers = dict(TIERS, **(tiers or {}))
         self.drain = drain
         self.per_shard = per_shard
@@ -90,9 +90,18 @@ class ComponentCheck:
         if self.embedded:
             nemb = 12 if tier == "quick" else 240
             out += [{"seed": seed, "embedded": True, "first": i * 3, "n": 3, "cycles": 300 if tier == "quick" else 800} for i in range(nemb)]
+        if self.suite and tier != "quick":
+            # third workload (thorough tier): the repository's own tests of this component and of its users, with the passive monitors attached
+            from ..gen.checks import SUITE_PARTS
+            for f in self.suite[1]:
+                n = SUITE_PARTS.get(f, 1)
+                out += [{"seed": seed, "suite": True, "file": f, "root": "/repo", "part": f"{i}/{n}"} for i in range(n)]
         return out
 
     def run_shard(self, spec: dict, rec: Rec):
+        if spec.get("suite"):
+            from ..gen.checks import run_suite_shard
+            return run_suite_shard(spec, rec, self.pid, ("embedded:",), passive=self.suite[0])
         if spec.get("embedded"):
             return run_embedded_shard(spec, rec, self.pid, self.embedded[0], self.embedded[1])
         for i in range(spec["first"], spec["first"] + spec["n"]):
